@@ -25,6 +25,7 @@ var Exempt = map[string]string{
 
 func Run(conf core.Config) *core.Result {
 	res := core.NewResult("MATARGS")
+	res.Rules = append(res.Rules, "MAT.guardorder: in every exported pointer-receiver method of mat no checkOverlap* guard of the receiver is reachable after a write of the receiver's content (Copy*, Zero, CloneFrom, a kernel call into the receiver)")
 	res.Rules = append(res.Rules, "MAT.order: in every exported pointer-receiver method of mat, no panic with one of the package's Err* values or string constants is reachable after the receiver was sized or written")
 	res.Configs = append(res.Configs, conf.String())
 	pkgs, err := core.Load(conf, "./mat")
@@ -115,6 +116,75 @@ func Run(conf core.Config) *core.Result {
 				}
 				return true
 			})
+			// MAT.guardorder: the overlap guards panic too (regionOverlap), so
+			// none of them may follow a write of the receiver's *content*
+			// (sizing with reuseAs* keeps the content and is the usual first
+			// statement)
+			{
+				var guards []*ast.CallExpr
+				var content []ast.Node
+				ast.Inspect(fd.Body, func(n ast.Node) bool {
+					c, ok := n.(*ast.CallExpr)
+					if !ok {
+						return true
+					}
+					if sel, ok := c.Fun.(*ast.SelectorExpr); ok && isRecv(sel.X) {
+						nm := sel.Sel.Name
+						switch {
+						case strings.HasPrefix(nm, "checkOverlap"):
+							guards = append(guards, c)
+						case strings.HasPrefix(nm, "Copy") || nm == "Zero" || nm == "CloneFrom":
+							content = append(content, c)
+						}
+					}
+					return true
+				})
+				for _, w := range writes {
+					if c, ok := w.(*ast.CallExpr); ok {
+						if sel, ok := c.Fun.(*ast.SelectorExpr); ok && isRecv(sel.X) {
+							continue // receiver methods were classified above
+						}
+						content = append(content, w) // kernel calls
+					}
+				}
+				if len(guards) > 0 {
+					afterC := make([]bool, len(g.Blocks))
+					originC := map[int32]ast.Node{}
+					for _, w := range content {
+						loc, ok := g.Where[w]
+						if !ok {
+							continue
+						}
+						for i, v := range g.From(g.Blocks[loc.Block]) {
+							if v && !afterC[i] {
+								afterC[i] = true
+								originC[int32(i)] = w
+							}
+						}
+						// later in the same block
+						for _, gd := range guards {
+							if gl, ok := g.Where[gd]; ok && gl.Block == loc.Block && gl.Index > loc.Index {
+								afterC[loc.Block] = true
+								originC[loc.Block] = w
+							}
+						}
+					}
+					for _, gd := range guards {
+						res.Obligations++
+						res.Count("overlap_guard_calls", 1)
+						loc, ok := g.Where[gd]
+						if !ok || !afterC[loc.Block] {
+							continue
+						}
+						w := originC[loc.Block]
+						if wl, ok := g.Where[w]; ok && wl.Block == loc.Block && wl.Index >= loc.Index && !g.From(g.Blocks[loc.Block])[loc.Block] {
+							continue // the write follows the guard in this block
+						}
+						res.Add(core.Finding{Rule: "MAT.guardorder", Key: fmt.Sprintf("MAT.guardorder|%s|%s", name, types.ExprString(gd.Fun)), Pos: core.Pos(gd.Pos()), Func: name,
+							Msg: fmt.Sprintf("the overlap guard %s can panic after the receiver's content was already written at %s: a rejected call leaves its operands modified", types.ExprString(gd.Fun), core.Pos(w.Pos()))})
+					}
+				}
+			}
 			if len(panics) == 0 {
 				continue
 			}
